@@ -50,7 +50,18 @@ def generate(rng, n, tier):
             c.update(kind="order", cfg=cfg2, tail=tail, perms=perms)
             yield c
         elif r < 0.85:
-            c = G.gen_script(rng, nops=(2, 6), p_mid=0.2, solvers=("DE2",))
+            c = G.gen_script(rng, nops=(2, 6), p_mid=0.2, solvers=("DE2",), allow_modes=rng.random() < 0.5)   # incl. clip=False: random re-draws while trial vectors are built
+            if rng.random() < 0.25:       # a run in which trial vectors keep leaving the box and are re-drawn at random (clip=False)
+                nd = c["ndim"]; lo = [rng.choice([-1.0, 0.0]) for _ in range(nd)]; hi = [l + rng.choice([1.0, 2.0]) for l in lo]
+                c["scale"] = 1.0
+                c.pop("de_kw", None)
+                c["ops"] = [dict(op="SetTermination", term=G.gen_term(rng)), dict(op="SetObjective", cost=dict(kind="quad", a=[h + 1.5 for h in hi])),
+                            dict(op="SetRandomInitialPoints", lo=lo, hi=hi), dict(op="SetStrictRanges", lo=lo, hi=hi, tight=rng.choice([None, True]), clip=False)] + \
+                           [dict(op="Step", cb=False) for _ in range(rng.choice([3, 5]))]
+            elif rng.random() < 0.4:        # random re-draws (clip=False) for whatever leaves the box: drawn while the trial vectors are built, before the map
+                for o in c["ops"]:
+                    if o["op"] == "SetStrictRanges" and o.get("lo") and all(abs(v) != math.inf for v in o["lo"] + o["hi"]):
+                        o["tight"], o["clip"] = rng.choice([None, True]), False
             c.update(kind="map", maps=["reversed", "shuffled", "threads"], mapseed=rng.randrange(10 ** 6))
             yield c
         elif r < 0.9:
@@ -60,8 +71,10 @@ def generate(rng, n, tier):
             ndim = rng.choice([1, 2])
             yield dict(kind="ensemble", ens=rng.choice(["lattice", "buckshot"]), nested=rng.choice(["NM", "POW"]), ndim=ndim,
                        nbins=[rng.choice([1, 2, 3]) for _ in range(ndim)], npts=rng.choice([2, 3, 5]),
-                       lo=[-2.0] * ndim, hi=[2.0 + rng.choice([0, 1])] * ndim, cost=G.gen_cost(rng, ndim), seed=rng.randrange(10 ** 6),
-                       maxiter=rng.choice([3, 5, 8]), mapseed=rng.randrange(10 ** 6))
+                       lo=[-2.0] * ndim, hi=[rng.choice([2.0, 3.0, 0.5, -0.5])] * ndim, cost=G.gen_cost(rng, ndim), seed=rng.randrange(10 ** 6),
+                       maxiter=rng.choice([3, 5, 8]), mapseed=rng.randrange(10 ** 6),
+                       inst=rng.random() < 0.5,          # the nested solver given as a configured instance rather than a class
+                       cfgperms=[rng.sample(range(5), 5) for _ in range(3)])
 
 
 def make_map(kind, seed):
@@ -175,14 +188,20 @@ def _run_ensemble(case):
     from mystic.solvers import LatticeSolver, BuckshotSolver, NelderMeadSimplexSolver, PowellDirectionalSolver
     from mystic.termination import VTR
     nested = {"NM": NelderMeadSimplexSolver, "POW": PowellDirectionalSolver}[case["nested"]]
-    def build(mp):
+    def build(mp, perm=(0, 1, 2, 3, 4)):
         random.seed(case["seed"]); np.random.seed(case["seed"] % (2 ** 31))
         s = LatticeSolver(case["ndim"], case["nbins"]) if case["ens"] == "lattice" else BuckshotSolver(case["ndim"], case["npts"])
-        s.SetNestedSolver(nested)
-        s.SetStrictRanges(list(case["lo"]), list(case["hi"]))
-        s.SetEvaluationLimits(generations=case["maxiter"])
-        s.SetTermination(VTR(-1.0))
-        s.SetObjective(_Cost(case["cost"]))
+        def inner():          # a fully configured member (the ensemble hands an instance on as it is)
+            m = nested(case["ndim"])
+            m.SetEvaluationLimits(generations=case["maxiter"]); m.SetTermination(VTR(-1.0)); m.SetObjective(_Cost(case["cost"]))
+            return m
+        calls = [lambda: s.SetNestedSolver(inner() if case.get("inst") else nested),
+                 lambda: s.SetStrictRanges(list(case["lo"]), list(case["hi"])),
+                 lambda: s.SetEvaluationLimits(generations=case["maxiter"]),
+                 lambda: s.SetTermination(VTR(-1.0)),
+                 lambda: s.SetObjective(_Cost(case["cost"]))]
+        for i in perm:
+            calls[i]()
         if mp is not None:
             s.SetMapper(make_map(mp, case["mapseed"]))
         return s
@@ -197,6 +216,8 @@ def _run_ensemble(case):
     while not s.Step() and n < 200:
         n += 1
     res["steploop"] = obs(s)
+    for j, perm in enumerate(case.get("cfgperms", [])):       # the same configuration calls in another order
+        s = build(None, perm); s.Solve(); res["order:" + "".join(map(str, perm))] = obs(s)
     return dict(ens=res)
 
 
@@ -255,7 +276,7 @@ def oracle(case, out):
             if o != ref:
                 diff = [q for q in ref if ref[q] != o[q]]
                 f.append(SC.fail("ensemble_schedule_irrelevant", case["ens"] + "/" + case["nested"],
-                                 "ensemble-result-depends-on-" + ("step-vs-solve" if name == "steploop" else "map-order:" + name), dict(fields=diff, ref=ref, got=o)))
+                                 "ensemble-result-depends-on-" + ("step-vs-solve" if name == "steploop" else "configuration-order" if name.startswith("order:") else "map-order:" + name), dict(fields=diff, ref=ref, got=o)))
                 break
     return f
 
